@@ -154,6 +154,24 @@ def b_len(ex, st, args, kwargs, node):
             fq = '%s:%s' % (member.__module__, member.__qualname__)
             return ex.call_function(st, SV(VNone, Ty.TFunc(fq, recv=v)), [], {}, node)
         return [], [ex.raised(st, 'builtins:TypeError')]
+    if isinstance(ty, Ty.TAny):
+        # unknown static type: a str / bytes / list / tuple / dict / set has its length, anything else here is a TypeError
+        # (instances with __len__ are not expected behind an untyped value; they would need a declared type)
+        t = v.term
+        a = va(t)
+        normals, raises = [], []
+        rest = st
+        for cond, mk in ((is_str(t), lambda c: I(z3.Length(vs(t)))), (is_bytes(t), lambda c: I(z3.Length(vy(t)))),
+                         (And(is_ref(t), Or(KIND(a) == K_LIST, KIND(a) == K_TUPLE)), lambda c: I(z3.Length(sel_L(c, a)))),
+                         (And(is_ref(t), Or(KIND(a) == K_DICT, KIND(a) == K_SET)), lambda c: I(c.DSZ[a]))):
+            if rest is None:
+                break
+            yes, rest = ex.fork(rest.copy(), cond, None)
+            if yes is not None:
+                normals.append((yes, mk(yes)))
+        if rest is not None:
+            raises.append(ex.raised(rest, 'builtins:TypeError'))
+        return normals, raises
     raise Unsupported('len of %r (line %d)' % (ty, node.lineno))
 
 
